@@ -1,10 +1,16 @@
 import XpmVerif.Basic.JsonUtil
-import XpmVerif.Model.GenPath
-/-! Line-protocol driver for the generated-path model (C17).
+import XpmVerif.Model.GenPathHist
+/-! Line-protocol driver for the generated-path model (C17), histories included.
     in : {"enc":"raw"|"esc","nodes":[{"args":[[name,val]…],"gens":[[arg,file]…],"pre":[ids]}…],
-          "ops":[{"op":"submit","root":i,"init":[ids]} | {"op":"copydeps","c":i,"o":j}…]}
+          "ops":[{"op":"submit","root":i,"init":[ids],"outs":[ids]} | {"op":"copydeps","c":i,"o":j}
+                 | {"op":"construct","node":{…as in "nodes"…}} | {"op":"set","n":i,"k":name,"v":val,"pos":p}
+                 | {"op":"addpre","n":i,"t":j} | {"op":"mark","root":i,"o":j} …]}
          val = null | {"s":1} | {"l":[val…]} | {"d":[[key,val]…]} | {"r":id}
-    out: {"submits":[{"ok":bool,"okany":bool,"entries":[{"node","arg","abs","comps"}…]}…]} (one per submit op) -/
+    out: {"submits":[{"ok":bool,"okany":bool,"entries":[{"node","arg","abs","comps"}…]}…] (one per submit op),
+          "wf":bool (Hist.WF of the ops), "init":bool (Graph.Init of "nodes"),
+          "final":{"ok":bool,"sealed":[bool…],"task":[id|null…]},
+          "log":[{"job":root,"node","arg","abs","comps"}…] (HState.paths at the end)}
+    Every op goes through `HState.step` (the model the history theorems are about). -/
 open Lean XpmVerif XpmVerif.J XpmVerif.GenPath
 
 instance : Inhabited Val := ⟨.none⟩
@@ -27,20 +33,35 @@ def entryJ (e : Entry) : Json :=
   Json.mkObj [("node", e.node), ("arg", String.ofList e.arg), ("abs", e.path.abs),
     ("comps", Json.arr (e.path.comps.map (fun c => Json.str (String.ofList c))).toArray)]
 
+def opOf (op : Json) : Op :=
+  let k := strF op "op"
+  if k == "submit" then .submit (natF op "root") ((arrF op "init").map nat) ((arrF op "outs").map nat)
+  else if k == "construct" then .construct (nodeOf (fld op "node"))
+  else if k == "set" then .set (natF op "n") (strF op "k").toList (valOf (fld op "v")) (natF op "pos")
+  else if k == "addpre" then .addPre (natF op "n") (natF op "t")
+  else if k == "mark" then .mark (natF op "root") (natF op "o")
+  else .copyDeps (natF op "c") (natF op "o")
+
 def step (_ : Unit) (j : Json) : Unit × Json :=
   let enc : Str → Str := if strF j "enc" == "esc" then escapeKey else id
   let g0 : Graph := ⟨(arrF j "nodes").map nodeOf⟩
-  let (_, outs) := (arrF j "ops").foldl (fun (acc : Graph × List Json) op =>
-    let (g, outs) := acc
-    if strF op "op" == "submit" then
-      let root := natF op "root"
-      let inits := (arrF op "init").map nat
+  let ops := (arrF j "ops").map opOf
+  let (sf, outs) := ops.foldl (fun (acc : HState × List Json) op =>
+    let (s, outs) := acc
+    let s' := s.step enc op
+    match op with
+    | .submit root inits _ =>
       -- the hypotheses of the theorems, evaluated on the graph this submission walks
-      let g1 : Graph := ⟨setAt g.nodes root (fun nd => { nd with initTasks := inits })⟩
-      let (g', es) := submit enc g root inits
-      (g', outs ++ [Json.mkObj [("ok", g1.okB enc), ("okany", g1.okAnyB), ("entries", Json.arr (es.map entryJ).toArray)]])
-    else
-      (copyDeps g (natF op "c") (natF op "o"), outs)) (g0, [])
-  ((), Json.mkObj [("submits", Json.arr outs.toArray)])
+      let g1 : Graph := ⟨setAt s.g.nodes root (fun nd => { nd with initTasks := inits })⟩
+      let es := (submit enc s.g root inits).2
+      (s', outs ++ [Json.mkObj [("ok", g1.okB enc), ("okany", g1.okAnyB), ("entries", Json.arr (es.map entryJ).toArray)]])
+    | _ => (s', outs)) (({ g := g0 } : HState), [])
+  let logJ := sf.paths.map (fun x => Json.mkObj [("job", x.1), ("node", x.2.node), ("arg", String.ofList x.2.arg),
+    ("abs", x.2.path.abs), ("comps", Json.arr (x.2.path.comps.map (fun c => Json.str (String.ofList c))).toArray)])
+  let finalJ := Json.mkObj [("ok", sf.g.okB enc),
+    ("sealed", Json.arr (sf.g.nodes.map (fun nd => Json.bool nd.isSealed)).toArray),
+    ("task", Json.arr (sf.g.nodes.map (fun nd => match nd.task with | some t => (t : Json) | none => Json.null)).toArray)]
+  ((), Json.mkObj [("submits", Json.arr outs.toArray), ("wf", Hist.wfB enc ops), ("init", g0.initB enc),
+    ("final", finalJ), ("log", Json.arr logJ.toArray)])
 
 def main : IO Unit := J.loop step ()
